@@ -95,6 +95,34 @@ def run(ctx):
     for sb, sspan, lbl in umf + ubn:
         t = F.blocks[sb].term
         ctx.ob('C06.r2', F.name, 'new filtered height (%s) derives from the limit' % lbl, from_min(t.args[1]), at=t.span)
+    # every accepted filter is hash-verified: the vector whose length bounds `limit` is the very vector the verifying loop zips the
+    # filters with, from its first element (an offset / skip / other vector would leave a tail of the accepted prefix unverified)
+    def base_local(op):
+        cur = op.strip()
+        for _ in range(12):
+            m = re.fullmatch(r'(?:move |copy )?\(?\*?(_\d+)\)?', cur) or re.fullmatch(r"&(?:mut )?\(?\*?(_\d+)\)?", cur)
+            if not m:
+                return None
+            loc = m.group(1)
+            ds = du.defs.get(int(loc[1:]), [])
+            if len(ds) == 1 and ds[0][0] == 'assign' and re.fullmatch(r"(?:move |copy |&(?:mut )?)\(?\*?_\d+\)?", ds[0][2].rhs.strip()):
+                cur = ds[0][2].rhs.strip()
+                continue
+            return loc
+        return None
+    lens = [t for b, t in P.call_sites(F, lambda k, t: k == 'Vec::len') if any(o[0] == 'call' and o[2] == b for a in mt.args for o in du.origins(a, stop_at_calls=True))]
+    zt = P.call_sites(F, lambda k, t: k.endswith('Iterator>::zip'))
+    ok_same = False
+    chain = []
+    if len(lens) == 1 and zt:
+        vlen = base_local(lens[0].args[0])
+        zorg = [o for o in du.origins(zt[0][1].args[1], stop_at_calls=True) if o[0] == 'call']
+        chain = sorted(o[1] for o in zorg)
+        if len(zorg) == 1 and zorg[0][1] in ('<Vec as IntoIterator>::into_iter', 'slice::iter', '<&Vec as IntoIterator>::into_iter'):
+            it = F.blocks[zorg[0][2]].term
+            ok_same = vlen is not None and base_local(it.args[0]) == vlen
+    ctx.ob('C06.r2', F.name, 'the loop verifies the filters against the whole vector whose length bounds the limit (no offset, no other vector)', ok_same,
+           at=zt[0][1].span if zt else mt.span, zip_source=chain)
     # r3 provenance of expected hashes
     allowed_src = ('Peers::get_cached_block_filter_hashes', 'Peers::get_latest_block_filter_hashes', 'Storage::get_check_points',
                    'Storage::get_last_check_point')
